@@ -287,11 +287,18 @@ def repo_digest():
 # ------------------------------------------------------------------------------- verdicts, evidence
 
 def load_known():
+    out = []
     p = os.path.join(VERIF, "KNOWN_FINDINGS.json")
-    if not os.path.exists(p):
-        return []
-    with open(p) as f:
-        return json.load(f).get("findings", [])
+    if os.path.exists(p):
+        with open(p) as f:
+            out += json.load(f).get("findings", [])
+    d = os.path.join(VERIF, "KNOWN_FINDINGS.d")       # per-property files, same format, committed
+    if os.path.isdir(d):
+        for fn in sorted(os.listdir(d)):
+            if fn.endswith(".json"):
+                with open(os.path.join(d, fn)) as f:
+                    out += json.load(f).get("findings", [])
+    return out
 
 
 class Result(object):
